@@ -36,8 +36,21 @@ mk shallow; sign shallow "Verif Shallow CA" ../root.crt ../root.key v3_ca0
 mk sub; sign sub "Verif Sub CA" shallow.crt shallow.key v3_ca
 mk deep; sign deep deep sub.crt sub.key v3_leaf
 cat deep.crt sub.crt shallow.crt > deep-chain.crt
+# a CA whose common name is a host name, and a leaf under it that has no subjectAltName at all
+# (CN=other.test): it names nobody, least of all its issuer
+cat >> x.cnf <<'CNF'
+[ v3_nosan ]
+basicConstraints = CA:FALSE
+keyUsage = critical,digitalSignature
+extendedKeyUsage = serverAuth
+CNF
+mk cnca
+openssl req -new -x509 -key cnca.key -subj "/O=Verif/CN=good.test" -config x.cnf -extensions v3_ca -sha256 -set_serial 77 \
+   -not_before 19700101000000Z -not_after 21200101000000Z -out cnca.crt
+mk nosan; sign nosan other.test cnca.crt cnca.key v3_nosan
 cd ..
+cp work2/cnca.crt cnca.crt; cp work2/cnca.key cnca.key; cp work2/nosan.crt nosan.crt; cp work2/nosan.key nosan.key
 cp work2/forged-chain.crt forged.crt; cp work2/forged.key forged.key
 cp work2/deep-chain.crt deep.crt; cp work2/deep.key deep.key
 rm -rf work2
-for f in forged deep; do echo "== $f.crt: $(grep -c BEGIN $f.crt) certificates"; openssl x509 -in $f.crt -noout -subject -issuer | tr '\n' ' '; echo; done
+for f in forged deep cnca nosan; do echo "== $f.crt: $(grep -c BEGIN $f.crt) certificates"; openssl x509 -in $f.crt -noout -subject -issuer | tr '\n' ' '; echo; done
